@@ -204,6 +204,7 @@ pub struct JobResult {
     pub machinery_errors: Vec<String>,
     pub sample: Option<(Vec<ChoicePoint>, Vec<String>)>,
     pub bound_completed: usize,
+    pub memory_capped: bool,
 }
 
 struct Pending {
@@ -350,6 +351,11 @@ impl JobState {
         }
         if r.execs >= self.job.max_execs {
             r.capped = true;
+        }
+        if r.execs % 4096 == 0 && crate::evidence::rss_bytes() > crate::evidence::rss_cap_bytes() {
+            // memory cap: stop this scenario, report it as capped (never silently)
+            r.capped = true;
+            r.memory_capped = true;
         }
     }
 }
